@@ -193,7 +193,7 @@ def java_unescape_sym(lit):
 
 def job(jc, spec):
     n, first_class = spec
-    hook.install()
+    hook.install(symkeys=('androguard.decompiler.writer', 'androguard.decompiler.opcode_ins'))
     from androguard.decompiler import writer
     writer.ord = sx_ord
     hook.MOD_TO_SSTR[0] = True
@@ -268,7 +268,7 @@ def run(ctx):
                        "CR/LF and an unescaped '\"' may not occur inside the literal",
                        'the literal must consist of printable ASCII only']
     ctx.outside_claim = ['strings longer than %d code points' % maxlen]
-    hook.install()
+    hook.install(symkeys=('androguard.decompiler.writer', 'androguard.decompiler.opcode_ins'))
     cases = ['', 'a', '"', "'", '\\', '\n', '\r', '\t', '\x00', '\x7f', '\x80', ' ', '\ud800', '\udfff', '￿',
              'a\\u0041', '\\"', 'ab"c', '\\\\u0022']
     ctx.diff_unhooked(sys.modules[__name__], cases)
